@@ -225,6 +225,9 @@ struct Gen<'a> {
     admin_bias: bool,
     /// the account admin operations are biased to (0, or a plain-named one)
     admin_acct: u32,
+    /// non-bonded denominations that may still receive one huge mint
+    huge_left: u32,
+    many_done: bool,
     nodes_left: u32,
     uniq: u32,
     /// keys written recently (reads, removes and queries are biased towards them: read-after-write,
@@ -264,8 +267,10 @@ impl<'a> Gen<'a> {
             Target::SelfAddr
         } else if r < 94 {
             Target::Account(self.rng.below(self.n_accounts as u64) as u32)
-        } else if r < 98 {
+        } else if r < 96 {
             Target::Ghost(self.rng.below(24) as u32)
+        } else if r < 98 {
+            Target::Next
         } else {
             Target::Invalid
         }
@@ -281,8 +286,10 @@ impl<'a> Gen<'a> {
             Target::Contract(self.rng.below(self.n_slots as u64) as u32)
         } else if r < 85 {
             Target::SelfAddr
-        } else if r < 97 {
+        } else if r < 94 {
             Target::Ghost(self.rng.below(24) as u32)
+        } else if r < 97 {
+            Target::Next
         } else {
             Target::Invalid
         }
@@ -650,6 +657,22 @@ impl<'a> Gen<'a> {
                 self.nodes_left = self.p.max_nodes;
                 Op::WasmSudo { target: self.target_contract(), node: self.node(0), via_router: self.rng.chance(1, 2) }
             }
+            3 if self.huge_left > 0 && self.n_denoms >= 2 && self.rng.chance(1, 3) => {
+                // 2^127 of one or of two non-bonded denominations at once (each denomination at most once per
+                // run, so that no balance or supply leaves the 128-bit range)
+                let first = self.n_denoms - self.huge_left;
+                let n = if self.huge_left >= 2 && self.rng.chance(1, 2) { 2 } else { 1 };
+                let coins = (0..n).map(|i| (format!("denom{}", first + i), 1u64, 127u8)).collect();
+                self.huge_left -= n;
+                Op::MintRaw { to: Target::Account(self.rng.below(self.n_accounts as u64) as u32), coins }
+            }
+            3 if !self.many_done && self.rng.chance(1, 12) => {
+                // one account comes to hold more than a hundred denominations
+                self.many_done = true;
+                let n = *self.rng.pick(&[99u32, 100, 101, 130]);
+                let coins = (0..n).map(|i| (format!("zd{:03}", i), 1 + i as u64, 0u8)).collect();
+                Op::MintRaw { to: Target::Account(self.rng.below(self.n_accounts as u64) as u32), coins }
+            }
             3 => Op::Mint { to: self.target_any(), coins: self.coins(true).into_iter().map(|c| CoinSpec { denom: c.denom, amt: match c.amt { Amt::Abs(n) => Amt::Abs(n * 10), Amt::Zero => Amt::Zero, _ => Amt::Abs(25) } }).collect() },
             4 => {
                 self.nodes_left = self.p.max_nodes;
@@ -709,7 +732,7 @@ impl<'a> Gen<'a> {
         let op = if r < 5 {
             Op::StoreCode { kind: self.kind(), creator, with_checksum }
         } else if r < 8 {
-            let id = *self.rng.pick(&[0u64, 1, 2, 5, 9, 100, 1 << 40, 3, 4]);
+            let id = *self.rng.pick(&[0u64, 1, 2, 5, 9, 100, 1 << 40, 3, 4, u64::MAX - 1, u64::MAX - 1]);
             Op::StoreCodeWithId { kind: self.kind(), creator, id, with_checksum }
         } else if r < 9 {
             Op::DuplicateCode { code: self.rng.below(self.n_codes as u64 + 1) as u32 }
@@ -753,7 +776,7 @@ fn gen_case(rng: &mut Rng, cfg: &Cfg) -> Case {
     let plain_accounts = plain_accounts.min(n_accounts.saturating_sub(1) as u8);
     // the favourite admin: account 0, or (half of the runs that have one) the plain-named "owner"
     let admin_acct = if plain_accounts > 0 && rng.chance(1, 2) { n_accounts - 1 } else { 0 };
-    let mut g = Gen { rng, p, nid: 0, n_accounts, n_denoms, n_validators, n_codes: 0, n_slots: 0, n_live: 0, admin_bias, admin_acct, nodes_left: 0, uniq: 0, recent: vec![] };
+    let mut g = Gen { rng, p, nid: 0, n_accounts, n_denoms, n_validators, n_codes: 0, n_slots: 0, n_live: 0, admin_bias, admin_acct, huge_left: n_denoms.saturating_sub(1), many_done: false, nodes_left: 0, uniq: 0, recent: vec![] };
     let mut ops = vec![];
     // setup prefix: codes and a few contracts (at least two from the same code)
     let ncodes = 2 + g.rng.below(3);
